@@ -74,6 +74,13 @@ type Ctx struct {
 	stores    map[string]storeInfo
 	distinctGrp map[string]int
 	paramIDs  map[string]bool
+	unfoldDepth int
+	frameActive bool
+	frameAll    bool
+	frameAllowed map[string][]T
+	frameAllowedWholeField map[string]bool
+	entryCut    int
+	entryAlloc  T
 }
 
 type writeRec struct {
@@ -85,6 +92,9 @@ type writeRec struct {
 
 func (c *Ctx) setHeap(st *State, name string, v T, key *T) {
 	st.heaps[name] = v
+	if c.frameActive && c.specMode == 0 && key != nil && c.inlineDepthOK() {
+		c.frameObligation(st, name, *key)
+	}
 	if _, ok := c.heapSorts[name]; !ok {
 		c.heapSorts[name] = v.K
 	}
@@ -94,6 +104,33 @@ func (c *Ctx) setHeap(st *State, name string, v T, key *T) {
 		k = &kk
 	}
 	c.writeLog = append(c.writeLog, writeRec{heap: name, key: k, sort: v.K})
+}
+
+func (c *Ctx) inlineDepthOK() bool { return true }
+
+// frameObligation: a write to an object that existed at entry must be covered
+// by the assigns clause (decided by SMT: the written object is fresh or is one
+// of the assigned objects).
+func (c *Ctx) frameObligation(st *State, heap string, key T) {
+	if classifyKey(key.S, c.entryCut) == 1 || key.S == "0" {
+		return
+	}
+	base := heap
+	if i := strings.Index(heap, "#"); i > 0 {
+		base = heap[:i]
+	}
+	var alts []T
+	for _, a := range c.frameAllowed[base] {
+		if a.S == key.S {
+			return
+		}
+		alts = append(alts, eq(key, a))
+	}
+	if strings.HasPrefix(heap, "F.") && c.frameAllowed[base] == nil && c.frameAllowedWholeField[base] {
+		return
+	}
+	alts = append(alts, app(SBool, ">=", key, c.entryAlloc))
+	c.oblige(st, "frame", "assigns", nil, or(alts...), token.NoPos, fmt.Sprintf("a write to %s[%s] stays within the assigns clause (assigned object or fresh memory)", heap, key.S))
 }
 
 func (c *Ctx) setCell(st *State, key string, v Val) {
@@ -275,16 +312,27 @@ func (c *Ctx) freshVal(st *State, name string, t types.Type) Val {
 		return v
 	case *types.Slice:
 		es, _ := sortOfBasic(u.Elem())
-		sv := SliceV{c.fresh(name+"_id", SInt), c.fresh(name+"_off", SInt), c.fresh(name+"_len", SInt), es, u.Elem()}
+		// A-SLICE0: a slice that comes from outside (parameter, field, call result)
+		// starts at the beginning of its backing array. Go code cannot observe the
+		// position of a slice inside its array except through overlapping slices
+		// of one array, which are excluded.
+		sv := SliceV{c.fresh(name+"_id", SInt), intLit(0), c.fresh(name+"_len", SInt), es, u.Elem()}
 		// nil slice: id 0, len 0; otherwise 0 < id < alloc
-		c.emit(fmt.Sprintf("(assert (and (>= %s 0) (>= %s 0) (>= %s 0) (< %s %s) (=> (= %s 0) (= %s 0))))",
-			sv.Len.S, sv.Off.S, sv.ID.S, sv.ID.S, st.alloc.S, sv.ID.S, sv.Len.S))
+		c.emit(fmt.Sprintf("(assert (and (>= %s 0) (>= %s 0) (< %s %s) (=> (= %s 0) (= %s 0))))",
+			sv.Len.S, sv.ID.S, sv.ID.S, st.alloc.S, sv.ID.S, sv.Len.S))
 		return sv
 	case *types.Pointer:
 		if s, ok := u.Elem().Underlying().(*types.Struct); ok {
 			r := c.fresh(name+"_ref", SInt)
 			c.emit(fmt.Sprintf("(assert (and (>= %s 0) (< %s %s)))", r.S, r.S, st.alloc.S))
 			return StructPtr{r, typeKey(u.Elem()), s, u.Elem()}
+		}
+		if at, ok := u.Elem().Underlying().(*types.Array); ok {
+			if es, ok := sortOfBasic(at.Elem()); ok {
+				id := c.fresh(name+"_aid", SInt)
+				c.emit(fmt.Sprintf("(assert (and (>= %s 0) (< %s %s)))", id.S, id.S, st.alloc.S))
+				return ArrPtr{id, es, at.Len()}
+			}
 		}
 		return OpaqueV{t.String()}
 	case *types.Interface:
@@ -320,6 +368,11 @@ func zeroVal(t types.Type) Val {
 	case *types.Pointer:
 		if s, ok := u.Elem().Underlying().(*types.Struct); ok {
 			return StructPtr{intLit(0), typeKey(u.Elem()), s, u.Elem()}
+		}
+		if at, ok := u.Elem().Underlying().(*types.Array); ok {
+			if es, ok := sortOfBasic(at.Elem()); ok {
+				return ArrPtr{intLit(0), es, at.Len()}
+			}
 		}
 	case *types.Interface:
 		if isErrorType(t) {
@@ -1033,7 +1086,33 @@ func addInt(a, b T) T {
 	if b.S == "0" {
 		return a
 	}
+	if isIntNumeral(a.S) && isIntNumeral(b.S) {
+		return intLit(numeralVal(a.S) + numeralVal(b.S))
+	}
 	return app(SInt, "+", a, b)
+}
+
+func subInt(a, b T) T {
+	if b.S == "0" {
+		return a
+	}
+	if isIntNumeral(a.S) && isIntNumeral(b.S) {
+		return intLit(numeralVal(a.S) - numeralVal(b.S))
+	}
+	return app(SInt, "-", a, b)
+}
+
+func numeralVal(s string) int64 {
+	neg := false
+	if strings.HasPrefix(s, "(- ") {
+		neg = true
+		s = s[3 : len(s)-1]
+	}
+	n, _ := strconv.ParseInt(s, 10, 64)
+	if neg {
+		return -n
+	}
+	return n
 }
 
 func boolT(b bool) T {
@@ -1122,11 +1201,15 @@ func (fr *Frame) storeLoc(st *State, base string, key T, t types.Type, v Val) {
 	case T:
 		put("", x.K, x)
 	case SliceV:
+		if x.Off.S != "0" {
+			panic(vcErr("a sub-slice with a non-zero offset is stored in %s: not modelled (A-SLICE0)", base))
+		}
 		put("#id", SInt, x.ID)
-		put("#off", SInt, x.Off)
 		put("#len", SInt, x.Len)
 	case StructPtr:
 		put("#ref", SInt, x.Ref)
+	case ArrPtr:
+		put("#id", SInt, x.ID)
 	case IfaceV:
 		put("#iref", SInt, x.Ref)
 	case ErrV:
@@ -1139,7 +1222,23 @@ func (fr *Frame) storeLoc(st *State, base string, key T, t types.Type, v Val) {
 func (fr *Frame) loadLoc(st *State, base string, key T, t types.Type) Val {
 	c := fr.c
 	get := func(suffix string, k Sort) T {
-		return c.sel(c.heap(st, base+suffix, arrSort(k)), key)
+		v := c.sel(c.heap(st, base+suffix, arrSort(k)), key)
+		if (suffix == "#id" || suffix == "#ref" || suffix == "#iref") && c.inQuant == 0 && st.alloc.S != "" && !isIntNumeral(v.S) {
+			// every object reachable from the heap has been allocated
+			fact := "alloc-bound:" + v.S + "<" + st.alloc.S
+			if !c.declared[fact] {
+				c.declared[fact] = true
+				c.emit(fmt.Sprintf("(assert (and (>= %s 0) (< %s %s)))", v.S, v.S, st.alloc.S))
+			}
+		}
+		if suffix == "#len" && c.inQuant == 0 && !isIntNumeral(v.S) {
+			fact := "len>=0:" + v.S
+			if !c.declared[fact] {
+				c.declared[fact] = true
+				c.emit(fmt.Sprintf("(assert (>= %s 0))", v.S))
+			}
+		}
+		return v
 	}
 	switch u := t.Underlying().(type) {
 	case *types.Basic:
@@ -1150,10 +1249,16 @@ func (fr *Frame) loadLoc(st *State, base string, key T, t types.Type) Val {
 		return get("", k)
 	case *types.Slice:
 		es, _ := sortOfBasic(u.Elem())
-		return SliceV{get("#id", SInt), get("#off", SInt), get("#len", SInt), es, u.Elem()}
+		return SliceV{get("#id", SInt), intLit(0), get("#len", SInt), es, u.Elem()}
 	case *types.Pointer:
 		if s, ok := u.Elem().Underlying().(*types.Struct); ok {
 			return StructPtr{get("#ref", SInt), typeKey(u.Elem()), s, u.Elem()}
+		}
+		if at, ok := u.Elem().Underlying().(*types.Array); ok {
+			es, ok := sortOfBasic(at.Elem())
+			if ok {
+				return ArrPtr{get("#id", SInt), es, at.Len()}
+			}
 		}
 	case *types.Interface:
 		if isErrorType(t) {
@@ -1221,6 +1326,14 @@ func (fr *Frame) indexAddr(in *ssa.IndexAddr, st *State) Val {
 			"index in range")
 		return ElemPtr{b.ID, c.def("ix", addInt(b.Off, idx)), b.Elem}
 	case ArrPtr:
+		if b.N >= 1<<30 {
+			// the *[1<<30]T idiom over caller-owned memory: Go checks nothing useful;
+			// the access must stay inside the caller's buffer (ghost length)
+			c.declareFun("cbuf_len", []Sort{SInt}, SInt)
+			c.oblige(st, "inbuf", "C03.inbuf", []string{"C03"}, and(app(SBool, "<=", intLit(0), idx), app(SBool, "<", idx, app(SInt, "cbuf_len", b.ID))), in.Pos(),
+				"access stays inside the caller's buffer")
+			return ElemPtr{b.ID, idx, b.Elem}
+		}
 		c.oblige(st, "bounds", "", nil, and(app(SBool, "<=", intLit(0), idx), app(SBool, "<", idx, intLit(b.N))), in.Pos(),
 			"index in range")
 		if b.Elem == "" {
@@ -1254,7 +1367,7 @@ func (fr *Frame) sliceOp(in *ssa.Slice, st *State) Val {
 		if p, ok := in.X.Type().Underlying().(*types.Pointer); ok {
 			et = p.Elem().Underlying().(*types.Array).Elem()
 		}
-		return SliceV{b.ID, lo, c.def("len", app(SInt, "-", hi, lo)), b.Elem, et}
+		return SliceV{b.ID, lo, c.def("len", subInt(hi, lo)), b.Elem, et}
 	case SliceV:
 		hi = b.Len
 		if in.High != nil {
@@ -1263,7 +1376,7 @@ func (fr *Frame) sliceOp(in *ssa.Slice, st *State) Val {
 		// Go allows hi up to cap; capacity is not modelled, so len is required
 		c.oblige(st, "bounds", "", nil, and(app(SBool, "<=", intLit(0), lo), app(SBool, "<=", lo, hi), app(SBool, "<=", hi, b.Len)),
 			in.Pos(), "slice bounds in range (within len; capacity is not modelled)")
-		return SliceV{b.ID, c.def("off", app(SInt, "+", b.Off, lo)), c.def("len", app(SInt, "-", hi, lo)), b.Elem, b.ElemT}
+		return SliceV{b.ID, c.def("off", addInt(b.Off, lo)), c.def("len", subInt(hi, lo)), b.Elem, b.ElemT}
 	}
 	panic(vcErr("Slice on %T", fr.get(in.X)))
 }
@@ -1310,7 +1423,7 @@ func (fr *Frame) typeAssert(in *ssa.TypeAssert, st *State) Val {
 		}
 		return iv
 	}
-	if iv.Conc != nil && types.Identical(iv.Typ, in.AssertedType) {
+	if iv.Conc != nil && iv.Typ != nil && types.Identical(iv.Typ, in.AssertedType) {
 		if in.CommaOk {
 			return TupleV{iv.Conc, tTrue}
 		}
@@ -1435,9 +1548,34 @@ func (c *Ctx) arith(st *State, op token.Token, x, y T, pos token.Pos, check bool
 			return tTrue
 		}
 	}
+	// constant folding on integer numerals (keeps unfolded spec functions small)
+	if x.K == SInt && y.K == SInt && isIntNumeral(x.S) && isIntNumeral(y.S) {
+		a, b := numeralVal(x.S), numeralVal(y.S)
+		switch op {
+		case token.ADD:
+			return intLit(a + b)
+		case token.SUB:
+			return intLit(a - b)
+		case token.LSS:
+			return boolT(a < b)
+		case token.LEQ:
+			return boolT(a <= b)
+		case token.GTR:
+			return boolT(a > b)
+		case token.GEQ:
+			return boolT(a >= b)
+		case token.EQL:
+			return boolT(a == b)
+		case token.NEQ:
+			return boolT(a != b)
+		}
+	}
 	switch op {
 	case token.ADD:
 		x, y = coerce2(x, y)
+		if x.K == SInt {
+			return addInt(x, y)
+		}
 		return app(x.K, "+", x, y)
 	case token.SUB:
 		x, y = coerce2(x, y)
